@@ -46,7 +46,8 @@ REPS = [
     ("third", "(1/3)", ["q", "1", "3"]), ("third", "((2^70+1)/(3*2^70+3))", ["q", "1", "3"]),
 ]
 QUICK_REPS = [0, 1, 2, 5, 6, 10, 11, 13, 14, 19, 22, 23, 26, 27]       # 1, 1.0, 2/2, 1/2, 0.5, 2^64, 2.0^64, [1], [1.0], "1", V(1, NaN), V(1.0, NaN)
-MID_REPS = [0, 1, 2, 3, 4, 5, 6, 7, 9, 10, 11, 12, 13, 14, 15, 16, 19, 22, 23, 24, 25, 26, 27, 28, 29]
+# depth-3 search: 21 representatives ([NaN], {1: NaN} and the two spellings of 1/3 stay in the grid family, which uses every representative)
+MID_REPS = [0, 1, 2, 3, 4, 5, 6, 7, 9, 10, 11, 12, 13, 14, 15, 16, 19, 22, 23, 26, 27]
 
 OPS = ["set", "inc", "rem", "add", "sub", "merge", "inter", "minus", "plus", "ins"]
 RAISE = "raise"
